@@ -341,8 +341,10 @@ fn run_linux(lsb: &str, status: &str, cpuinfo: &str) -> String {
 /// Q <callee regs name=val,..> <rules of the INIT line>;<rules of delta line 1>;..   (rule = name=const | name=! for an
 /// expression that fails): the general registers of the CFI caller frame (frames[1]) of an arm64 thread, by name
 const Q_OBSERVE: [&str; 15] = ["x19", "x20", "x21", "x22", "x23", "x24", "x25", "x26", "x27", "x28", "x29", "fp", "x30", "lr", "x0"];
-fn run_cfi_q(callee: &str, lines: &str) -> String {
-    let mut text = String::from("MODULE Linux arm64 000000000000000000000000000000000 q\nFUNC 0 10000 0 f\n");
+const Q_OBSERVE_ARM: [&str; 13] = ["r4", "r5", "r6", "r7", "r8", "r9", "r10", "r11", "fp", "r14", "lr", "r0", "r12"];
+fn run_cfi_q(callee: &str, lines: &str, arm: bool) -> String {
+    let mut text = format!("MODULE Linux {} 000000000000000000000000000000000 q\nFUNC 0 10000 0 f\n", if arm { "arm" } else { "arm64" });
+    let w: usize = if arm { 4 } else { 8 };
     for (i, l) in lines.split(';').enumerate() {
         let rules: Vec<String> = l
             .split(',')
@@ -353,12 +355,12 @@ fn run_cfi_q(callee: &str, lines: &str) -> String {
             })
             .collect();
         if i == 0 {
-            text.push_str(&format!("STACK CFI INIT 0 10000 .cfa: sp 16 + .ra: .cfa 8 - ^ {}\n", rules.join(" ")));
+            text.push_str(&format!("STACK CFI INIT 0 10000 .cfa: sp {} + .ra: .cfa {} - ^ {}\n", 2 * w, w, rules.join(" ")));
         } else {
             text.push_str(&format!("STACK CFI {:x} {}\n", 4 * i, rules.join(" ")));
         }
     }
-    let mut spec = Spec { cpu: "arm64".into(), os: "linux".into(), ..Default::default() };
+    let mut spec = Spec { cpu: if arm { "arm".into() } else { "arm64".into() }, os: "linux".into(), ..Default::default() };
     spec.syms.push(text.into_bytes());
     spec.modules.push(ModSpec { base: 0x400000, size: 0x10000, name: "/lib/q.so".into(), sym: Some(0), debug: None });
     let mut regs: Vec<(String, u64)> = vec![("pc".into(), 0x400800), ("sp".into(), 0x10000), ("lr".into(), 0x400080)];
@@ -367,8 +369,8 @@ fn run_cfi_q(callee: &str, lines: &str) -> String {
         regs.push((k.to_string(), num(v)));
     }
     let mut stack = vec![0u8; 64];
-    stack[0..8].copy_from_slice(&0x20000u64.to_le_bytes());
-    stack[8..16].copy_from_slice(&0x400100u64.to_le_bytes());
+    stack[0..w].copy_from_slice(&0x20000u64.to_le_bytes()[..w]);
+    stack[w..2 * w].copy_from_slice(&0x400100u64.to_le_bytes()[..w]);
     spec.threads.push(ThreadSpec { id: 1, stack_base: 0x10000, stack, regs: Some(regs) });
     let dump = Minidump::read(build_dump(&spec)).expect("read");
     let syms = symbol_table(&spec, &dump);
@@ -379,10 +381,12 @@ fn run_cfi_q(callee: &str, lines: &str) -> String {
         return format!("Q nocfi frames={}", frames.len());
     }
     let ctx = &frames[1].context;
-    let out: Vec<String> = Q_OBSERVE
+    let names: &[&str] = if arm { &Q_OBSERVE_ARM } else { &Q_OBSERVE };
+    let out: Vec<String> = names
         .iter()
         .map(|n| match &ctx.raw {
             MinidumpRawContext::Arm64(c) => c.get_register(n, &ctx.valid).map(|v| v.to_string()).unwrap_or_else(|| "-".into()),
+            MinidumpRawContext::Arm(c) => c.get_register(n, &ctx.valid).map(|v| v.to_string()).unwrap_or_else(|| "-".into()),
             _ => "?".into(),
         })
         .collect();
@@ -525,7 +529,8 @@ fn run(line: &str) -> String {
     }
     if let Some(rest) = line.strip_prefix("Q ") {
         let mut it = rest.split_ascii_whitespace();
-        return run_cfi_q(it.next().expect("callee"), it.next().expect("rules"));
+        let (callee, rules) = (it.next().expect("callee"), it.next().expect("rules"));
+        return run_cfi_q(callee, rules, it.next() == Some("arm"));
     }
     if let Some(h) = line.strip_prefix("R ") {
         return run_limits_names(h.trim());
